@@ -177,6 +177,8 @@ class World(object):
         self.all_sent = []
         self.blackout = {}  # direction ('c2s' / 's2c') -> tick until which datagrams are lost
         self.blackhole = {}  # direction -> (tick until which, size above which) datagrams are lost
+        self.drop_rule = None   # fn(world, dgram) -> True: the datagram is lost (content-selective loss, decided by the harness)
+        self.cb_raise = {}   # send-callback tag -> "always" | True | False: the user's callback raises when told that value
         self.handler_log = []
         self.handler_hooks = {}
         self.callback_log = []
@@ -340,6 +342,10 @@ class World(object):
         if self.blackout.get(direction, -1) > self.tickno:
             d.note = "lost(blackout)"
             return
+        if self.drop_rule is not None and self.drop_rule(self, d):
+            d.note = "lost(rule)"
+            self.fault_free = False
+            return
         hole = self.blackhole.get(direction)
         if hole is not None and hole[0] > self.tickno and len(data) > hole[1]:
             d.note = "lost(size black hole)"
@@ -356,6 +362,13 @@ class World(object):
                 if f == "dup":
                     self.net.append(d)
                     d2 = Dgram(d.id, src, dst, data, d.sent_tick, d.release_tick, d.sent_time, "dup-copy", copy_of=d.id)
+                    d2.client_addr = client_addr
+                    self.net.append(d2)
+                    return
+                if f.startswith("dupdelay"):
+                    # the datagram arrives on time and a second copy N ticks later
+                    self.net.append(d)
+                    d2 = Dgram(d.id, src, dst, data, d.sent_tick, d.release_tick + int(f[8:]), d.sent_time, "dup-copy(late)", copy_of=d.id)
                     d2.client_addr = client_addr
                     self.net.append(d2)
                     return
@@ -458,9 +471,48 @@ class World(object):
             self.callback_log.append((end, tag, bool(success), self.vt.now))
             for m in self.monitors:
                 m.on_callback(self, end, tag, bool(success))
+            mode = self.cb_raise.get(tag, "no")
+            if mode == "always" or mode == bool(success):
+                raise RuntimeError("user callback raises (injected by the harness)")
         cb.tag = tag
         cb.end = end
         return cb
+
+    def preset_near_wrap(self, pkt_seq=65530, msg_seq=65500):
+        """put both ends of client 0's session a few numbers below the 16-bit wrap of the datagram AND the message
+        counters, consistently (as if 65530 datagrams had been exchanged).  65530 datagrams take >= 18 minutes at the
+        protocol's rate cap: the clock and every stored time stamp move accordingly.  Call when nothing is pending."""
+        from mpgameserver.connection import SeqNum
+        c, s = self.clients[0].conn, self.server_conn(0)
+        # datagrams still in flight carry the OLD small numbers: after the preset they would look 'newer' than
+        # everything and pull the windows back.  They are lost (a keep-alive at most).
+        self.net = []
+        for sock in self.sockets:
+            if getattr(sock, "inbox", None):
+                del sock.inbox[:]
+        shift = 65530 / 60.0
+        self.vt.now += shift
+        for x in (c, s):
+            # every stored absolute time, whatever the attribute is called
+            for k, v in list(vars(x).items()):
+                if isinstance(v, float) and not isinstance(v, bool) and v > 500:
+                    setattr(x, k, v + shift)
+        for a, b in ((c, s), (s, c)):
+            a.seq_sending = SeqNum(pkt_seq)
+            a.pending_acks = {}
+            a.pending_callbacks = {}
+            a.pending_retry = {}
+            # the datagrams whose bookkeeping is dropped here count as acked (keeps assembled = acked + timeouts + pending)
+            if hasattr(a.stats, "assembled"):
+                a.stats.acked = a.stats.assembled - a.stats.timeouts
+            b.bitfield_pkt.current_seqnum = SeqNum(pkt_seq)
+            b.bitfield_pkt.bits = 0xFFFFFFFF
+            if msg_seq:
+                a.seq_message = SeqNum(msg_seq)
+                a.seq_fragment = SeqNum(65534)
+                a.pending_retry_msg = {}
+                b.bitfield_msg.current_seqnum = SeqNum(msg_seq)
+                b.bitfield_msg.bits = (1 << b.bitfield_msg.nbits) - 1
 
     def start_blackhole(self, direction, ticks, larger_than):
         """selective loss: for ``ticks`` ticks every datagram longer than ``larger_than`` bytes is lost in that direction
@@ -527,6 +579,34 @@ class World(object):
             self.patches.undo()
 
 
+def open_datagram(w, d):
+    """messages of an emitted datagram, read with the reference primitives: [(msg seq, type value, payload)] or None.
+    Works for datagrams of client 0's session (either direction)."""
+    import struct
+    from cryptography.hazmat.primitives.ciphers.aead import AESGCM
+    try:
+        conn = w.server_conn(0) if d.src == "s" else w.clients[0].conn
+        key = conn.session_key_bytes
+        data = d.data
+        typ, length, count = data[12], struct.unpack(">H", data[13:15])[0], data[15]
+        if key is None or typ in (1, 2):
+            return None
+        body = AESGCM(key).decrypt(data[:12], data[20:], data[:20])
+        if count == 0:
+            return []
+        if count == 1:
+            return [(struct.unpack(">H", body[:2])[0], typ, body[2:])]
+        out = []
+        pos = 0
+        for _ in range(count):
+            ln, seq, t = struct.unpack(">HHB", body[pos:pos + 5])
+            out.append((seq, t, body[pos + 5:pos + 5 + ln]))
+            pos += 5 + ln
+        return out
+    except Exception:
+        return None
+
+
 def age(t, now):
     if t is None or now is None:
         return t
@@ -556,13 +636,33 @@ def conn_fields(c, now=None):
         "pending_fragments": tuple(sorted((int(k), tuple(s.acks)) for k, s in c.pending_fragments.items())),
         "received_fragments": tuple(sorted((int(k), age(r.ctime, now), tuple(f is not None for f in r.fragments)) for k, r in c.received_fragments.items())),
         "incoming": tuple((int(s), p) for s, p in c.incoming_messages),
-        "last_recv_time": age(c.last_recv_time, now),
-        "last_send_time": age(c.last_send_time, now),
-        "last_send_keep_alive_time": age(c.last_send_keep_alive_time, now),
+        "last_recv_time": age(getattr(c, "last_recv_time", None), now),
+        "last_send_time": age(getattr(c, "last_send_time", None), now),
         "time_client_hello_sent": age(getattr(c, "time_client_hello_sent", None), now),
+        # every other scalar attribute, whatever it is called (the keep-alive timer, settings, anything a change adds):
+        # times (floats in the harness's clock range) as ages when a reference time is given
+        "other_scalars": other_scalars(c, now),
         "stats.received": c.stats.received, "stats.acked": c.stats.acked, "stats.timeouts": c.stats.timeouts,
         "stats.dropped": c.stats.dropped,
     }
+
+
+_LISTED = {"status", "session_key_bytes", "token", "seq_sending", "seq_message", "seq_fragment", "last_recv_time", "last_send_time",
+           "time_client_hello_sent", "latency", "session_salt", "last_latency_update_time"}
+
+
+def other_scalars(c, now):
+    out = []
+    for k, v in sorted(vars(c).items()):
+        if k in _LISTED or k.startswith("__"):
+            continue
+        if isinstance(v, bool) or v is None or isinstance(v, (str, bytes)):
+            out.append((k, v))
+        elif isinstance(v, int):
+            out.append((k, int(v)))
+        elif isinstance(v, float):
+            out.append((k, age(v, now) if v > 500 else v))
+    return tuple(out)
 
 
 def canon_conn(c, now):
